@@ -169,17 +169,24 @@ class _SyncUU(_MC, grpc.UnaryUnaryMultiCallable):
 
 
 class _SyncStream(_OkCall):
-    """Iterator of replies that is also the grpc.Call (as grpc's _MultiThreadedRendezvous is)."""
+    """Iterator of replies that is also the grpc.Call (as grpc's _MultiThreadedRendezvous is).  As with a real
+    channel, invoking a response-streaming multi-callable never fails: a failure before the first reply (status
+    or deadline) is delivered by the FIRST read."""
 
-    def __init__(self, sim, de, out):
+    def __init__(self, sim, de, out, timeout=None):
         self.sim, self.de, self.out = sim, de, out
         self.i = 0
         self.op = CURRENT_OP.get()
+        self.timeout = timeout
+        self.started = False
 
     def __iter__(self):
         return self
 
     def __next__(self):
+        if not self.started:
+            self.started = True
+            _sync_deliver(self.sim, self.out, self.timeout)       # raises the stream-start error, if any
         items = self.out.get("items", [])
         cut = self.out.get("cut")
         lats = self.out.get("item_lat") or []
@@ -198,8 +205,7 @@ class _SyncUS(_MC, grpc.UnaryStreamMultiCallable):
                  wait_for_ready=None, compression=None):
         data = self.ser(request)
         out = self.sim.attempt(self.path, "us", [data], metadata, timeout, self.ch.cid)
-        _sync_deliver(self.sim, out, timeout)
-        return _SyncStream(self.sim, self.de, out)
+        return _SyncStream(self.sim, self.de, out, timeout)
 
 
 class _SyncSU(_MC, grpc.StreamUnaryMultiCallable):
@@ -223,8 +229,7 @@ class _SyncSS(_MC, grpc.StreamStreamMultiCallable):
                  wait_for_ready=None, compression=None):
         reqs = [self.ser(r) for r in request_iterator]
         out = self.sim.attempt(self.path, "ss", reqs, metadata, timeout, self.ch.cid)
-        _sync_deliver(self.sim, out, timeout)
-        return _SyncStream(self.sim, self.de, out)
+        return _SyncStream(self.sim, self.de, out, timeout)
 
 
 class SimChannel(grpc.Channel):
